@@ -219,13 +219,40 @@ def splitAuthority (hostport : Str) : Str × Str :=
   | ':' :: hostRev => (hostRev.reverse, digits.reverse)
   | _ => (hostport, [])
 
-/-- normal form of (scheme, authority, path, query); fragment and userinfo are not part of it -/
+/-- RFC 3986 §5.2.4 remove_dot_segments, on the segments of an absolute path: "." and ".." are whole
+    segments; an empty segment is a segment like any other; a trailing "." or ".." leaves a trailing "/" -/
+def dotSegs : List Str → List Str → List Str
+  | out, [] => out
+  | out, [seg] =>
+    if seg = ['.'] then out ++ [[]] else if seg = ['.', '.'] then out.dropLast ++ [[]] else out ++ [seg]
+  | out, seg :: rest =>
+    if seg = ['.'] then dotSegs out rest else if seg = ['.', '.'] then dotSegs out.dropLast rest else dotSegs (out ++ [seg]) rest
+
+def splitOnSlash (s : Str) : List Str :=
+  let rec go (cur : Str) : Str → List Str
+    | [] => [cur.reverse]
+    | c :: r => if c = '/' then cur.reverse :: go [] r else go (c :: cur) r
+  go [] s
+
+def joinSlash : List Str → Str
+  | [] => []
+  | [x] => x
+  | x :: xs => x ++ '/' :: joinSlash xs
+
+def removeDots (path : Str) : Str :=
+  match path with
+  | '/' :: r => '/' :: joinSlash (dotSegs [] (splitOnSlash r))
+  | _ => path
+
+/-- normal form of (scheme, authority, path, query); fragment and userinfo are not part of it.
+    Percent-encoding is normalised first ("%2E" is a dot), then dot segments are removed. -/
 def urlNorm (scheme host path query : Str) : Str :=
   let s := lowerASCII scheme
   let (h, p) := splitAuthority host
   let p := if p = schemeDefaultPort s then [] else p
   let auth := if p.isEmpty then lowerASCII h else lowerASCII h ++ [':'] ++ p
-  let path := if path.isEmpty then ['/'] else pctNorm path
+  let path := removeDots (pctNorm path)
+  let path := if path.isEmpty then ['/'] else path
   s ++ (str% "://") ++ auth ++ path ++ (if query.isEmpty then [] else '?' :: pctNorm query)
 
 /-- same origin: scheme, host and effective port -/
